@@ -83,19 +83,21 @@ def mut_stale_row(tr, k):
 
 PLAN = dict(
     quick=dict(model=["EVMSyncC06.cfg"], gen="EVMSyncGenC06.cfg", edges=1000, walks=[("EVMSyncSimC06.cfg", 400)], l1=300,
-               probes=[("EVMSyncF7probe.cfg", "Faithful"), ("EVMSyncF6probe.cfg", "RewindLow")]),
+               probes=[("EVMSyncF7probe.cfg", "Faithful"), ("EVMSyncF6probe.cfg", "RewindLow"), ("EVMSyncF6byhash.cfg", "RewindLow")]),
     thorough=dict(model=["EVMSyncC06T.cfg", "EVMSyncC06T4.cfg"], gen="EVMSyncGenC06.cfg", edges=10000,
                   walks=[("EVMSyncSimC06.cfg", 4000), ("EVMSyncSimC06L.cfg", 1000)], l1=2500, model_timeout=3000, model_workers=12,
-                  probes=[("EVMSyncF7probe.cfg", "Faithful"), ("EVMSyncF6probe.cfg", "RewindLow")]),
+                  probes=[("EVMSyncF7probe.cfg", "Faithful"), ("EVMSyncF6probe.cfg", "RewindLow"), ("EVMSyncF6byhash.cfg", "RewindLow")]),
     invariants=["Ordered", "Faithful", "NoSkip", "Converged", "RewindLow"],
     regress=regress, known_match=known_match,
     selftests=[("rewind-without-replacement", pick_quiet_process, mut_spurious_reorg, "NoSpurious"),
                ("replaced-row-at-rest", pick_end_rows, mut_stale_row, "RewindLow")],
     assumptions=[
         "a fork wins only when it is longer: every fork replaces a suffix above the finalized block and adds one block",
-        "explored schedules: the detector's range removal follows the acknowledgement without interruption (AtomicRemove = TRUE) and "
-        "fewer than 6 forks hit one range query; the faithful model (AtomicRemove = FALSE) violates RewindLow - finding F6, replayed from "
-        "checks/regress/C06_F6.json; 6 hash mismatches in a row - finding F7, replayed from a fixed schedule",
+        "explored schedules: the code as repaired for F6 (the detector's range removal is a step of its own after the acknowledgement, the "
+        "subscriber's tracked list is locked from the accepted notification until it is done) and fewer than 6 forks per range query; the "
+        "model of the code before the repair (EVMSyncF6probe.cfg) and of a repair by hash (EVMSyncF6byhash.cfg) violate RewindLow as "
+        "expected; the F6 schedule checks/regress/C06_F6.json is replayed as a regression (its track step before the removal must block); "
+        "6 hash mismatches in a row - finding F7, replayed from a fixed schedule",
         "node start order is Start (load tracked blocks) then Subscribe, as cmd/run.go commonly runs it; the Start/Subscribe race is not explored",
         "environment moves are scheduled only immediately before a step that can observe them (hand-made partial-order reduction)",
         "restart = context cancelled with every goroutine parked at a gate (or in its select); the old goroutines never touch the DB files again",
